@@ -67,17 +67,16 @@ func (l *EventsLoader) LoadAndVerify(ctx context.Context, rawEvents []json.RawMe
 	}
 
 	// The ordering returns every event once. Put an event that was listed more than once back as
-	// often as it was listed, so that there is still exactly one result per input.
-	listed := make(map[string]int, len(events))
+	// often as it was listed - every copy as it was listed, since two copies with the same event ID
+	// need not carry the same signatures - so that there is still exactly one result per input.
+	copies := make(map[string][]PDU, len(events))
 	for _, event := range events {
-		listed[event.EventID()]++
+		copies[event.EventID()] = append(copies[event.EventID()], event)
 	}
 	sorted := ReverseTopologicalOrdering(events, sortOrder)
 	events = make([]PDU, 0, len(rawEvents))
 	for _, event := range sorted {
-		for n := listed[event.EventID()]; n > 0; n-- {
-			events = append(events, event)
-		}
+		events = append(events, copies[event.EventID()]...)
 	}
 	// assign the errors to the end of the slice
 	for i := 0; i < len(errs); i++ {
